@@ -278,7 +278,7 @@ theorem eval_fq (root : Node) (start pos : Pos) (strict : Bool) (hok : PathOK ro
     simp only [Flatland.C14.Proofs.NoZero, List.all_cons, Bool.and_eq_true] at this ⊢
     exact ⟨rfl, this⟩
   -- the work list on a slice-free op list is a single context
-  have hw := Flatland.C14.Proofs.work_level root strict _ _ (Nat.le_refl _) hz [start]
+  have hw := Flatland.C14.Proofs.work_level root strict _ _ (Nat.le_refl _) (Or.inl hz) [start]
   simp only [List.map_cons, List.map_nil] at hw
   unfold evalOps
   rw [hw]
@@ -477,7 +477,7 @@ theorem C13_full_fails_backslash : ¬ Inverse witnessTrailing := by
   rw [hfq, htok] at hinv
   simp only [List.map_cons, List.map_nil, hun] at hinv
   have hz : Flatland.C14.Proofs.NoZero [Op.top, Op.name (some ['y', '/', 'z'])] = true := by decide
-  have hw := Flatland.C14.Proofs.work_level witnessTrailing true _ _ (Nat.le_refl _) hz [[]]
+  have hw := Flatland.C14.Proofs.work_level witnessTrailing true _ _ (Nat.le_refl _) (Or.inl hz) [[]]
   simp only [List.map_cons, List.map_nil] at hw
   unfold evalOps at hinv
   rw [hw] at hinv
@@ -524,7 +524,7 @@ theorem C13_full_fails_key : ¬ Inverse witnessKey := by
   rw [hfq, htok] at hinv
   simp only [List.map_cons, List.map_nil, hun] at hinv
   have hz : Flatland.C14.Proofs.NoZero [Op.top, Op.name (some ['y'])] = true := by decide
-  have hw := Flatland.C14.Proofs.work_level witnessKey true _ _ (Nat.le_refl _) hz [[]]
+  have hw := Flatland.C14.Proofs.work_level witnessKey true _ _ (Nat.le_refl _) (Or.inl hz) [[]]
   simp only [List.map_cons, List.map_nil] at hw
   unfold evalOps at hinv
   rw [hw] at hinv
